@@ -85,6 +85,11 @@ def step(x, p):
     mode = tuple(p['mode'])
     acc = [bytes(a, 'latin-1') for a in p.get('acc', [])]
     buf = x.bytes('buf', n)
+    if p.get('pre'):
+        # a concrete opening + symbolic rest: reaches tokens longer than the
+        # fully symbolic bound (labels, long numerals, long brackets)
+        buf = p['pre'].encode('latin-1') + buf
+        n = len(buf)
     line0 = x.int('line', 0, 1000)
     col0 = x.int('col', 0, 1000)
     sline = x.int('sline', 0, 1000)
@@ -277,7 +282,14 @@ for _n in (0, 1, 2, 3):
     QUICK += all_modes(_n)
 QUICK += [{'mode': ['normal'], 'n': 4, '_budget': 300},
           {'mode': ['string', 34], 'n': 4, '_budget': 300}]
-THOROUGH = []
+PRE_Q = [('::', 4), ('::a', 3), ('::_1', 2), ('0x', 3), ('0x1.', 2), ('0b', 3),
+         ('1e', 2), ('1.5e', 2), ('12', 2), ('.5', 2), ('--[', 3), ('[=', 3),
+         ('[[', 2), ('..', 2), ('>>', 2), ('<<', 2), ('if', 2), ('end', 2),
+         ('\x80', 2), ('a.', 2), ('//', 2), ('!', 1), ('^^', 1), ('~', 1)]
+QUICK += [{'mode': ['normal'], 'pre': a, 'n': b, '_budget': 300}
+          for a, b in PRE_Q]
+THOROUGH = [{'mode': ['normal'], 'pre': a, 'n': b + 1, '_budget': 900}
+            for a, b in PRE_Q]
 for _n in (0, 1, 2, 3, 4, 5):
     THOROUGH += all_modes(_n, 900)
 THOROUGH += [{'mode': ['normal'], 'n': 6, '_budget': 1800}]
